@@ -230,10 +230,11 @@ def extra_checks(tier, verdict, cov):
     # (in a jail: `redo-ifchange /..` makes the root directory its project and creates /.redo)
     jail = common.make_jail(os.path.join(root, "degenerate"), bindir)
     os.makedirs(str(jail / "p" / ".redo"), exist_ok=True)
-    degenerate = ["/", "/..", "//", "/.", ".", "..", "./", "a/..", "a/../.."]
+    # ... nor names that no redo path can hold (a newline, a byte sequence that is not UTF-8)
+    degenerate = ["/", "/..", "//", "/.", ".", "..", "./", "a/..", "a/../..", "a\nb.x", "n\udcff.x"]
     for arg in degenerate:
         for tool in ("redo-whichdo", "redo-ifchange"):
-            rc, out, err = common.run_jailed(jail, ["/bin/" + tool, arg], "/p", timeout=30)
+            rc, out, err = common.run_jailed(jail, ["/bin/" + tool, os.fsencode(arg)], "/p", timeout=30)
             if rc == 101 or "panicked" in err:
                 sig = {"kind": "abort-on-an-argument-that-names-no-file", "tool": tool, "argument": arg}
                 verdict.report(sig, {"engine": "E1-history", "check": "degenerate", "argument": arg, "tool": tool, "rc": rc, "stderr": err[-300:]})
@@ -618,7 +619,7 @@ def replay(path):
         elif doc.get("check") == "degenerate":
             jail = common.make_jail(common.scratch_root() / "c13dg", common.build_subject())
             os.makedirs(str(jail / "p" / ".redo"), exist_ok=True)
-            rc, out, err = common.run_jailed(jail, ["/bin/" + doc["tool"], doc["argument"]], "/p", timeout=30)
+            rc, out, err = common.run_jailed(jail, ["/bin/" + doc["tool"], os.fsencode(doc["argument"])], "/p", timeout=30)
             print(rc, err[-300:])
             bad = int(rc == 101 or "panicked" in err)
         elif doc.get("check") == "outside":
